@@ -185,7 +185,7 @@ PROPS["C09"] = dict(
         # every distinct broadcast is merged: pairs of different broadcasts that agree under a family of 32-bit fingerprints (birthday search
         # over 200 000 / 1 500 000 real broadcasts), delivered adjacent, reversed, with duplicates, and a few hundred messages apart
         dict(name="fingerprints", pkg="c09", run="TestFingerprints", timeout=dict(quick=300, thorough=1800)),
-        dict(name="random", pkg="c09", run="TestRandom", checks=dict(quick=160000, thorough=1000000),
+        dict(name="random", pkg="c09", run="TestRandom", checks=dict(quick=80000, thorough=1000000),
              shards=dict(quick=8, thorough=16), timeout=dict(quick=300, thorough=1800)),
         # two local writers of one retained topic at the same moment: origin vs. mirror (package c20)
         dict(name="concurrentset", pkg="c20", run="TestSharedKeySet", shards=dict(quick=6, thorough=12), timeout=dict(quick=300, thorough=1800)),
